@@ -5,7 +5,7 @@
 #include <cmath>
 
 extern "C" {
-void c07_read_schedule(int, int);
+void c07_read_schedule(int, int); void c07_stream_offset(long);
 int c07_init(void); int c07_new(int); int c07_new_from_ptr(int, const char *, long, int, int);
 int c07_new_from_buff(int, const char *, long, long, int, int); int c07_new_from_fp(int, const char *, long, int, int, const char *);
 int c07_new_from_fd(int, const char *, long, int, int, const char *); int c07_init_plain(int); int c07_done(int); int c07_del(int);
@@ -115,6 +115,9 @@ struct Interp {
             c07_read_schedule(cap, eintr);
             if (cap) ctx.label("fd:short-reads");
             if (eintr) ctx.label("fd:EINTR");
+            // a regular file handed over with its position somewhere inside: the constructor may refuse it, or read what is left
+            long off = 0;
+            if (k == "new_fp" && kind == 1 && t.size() > 1 && (op.i(1) & 6) == 2) { off = 1 + (((op.i(2) % (long)(t.size() - 1)) + (long)(t.size() - 1)) % (long)(t.size() - 1)); c07_stream_offset(off); ctx.label("stream-positioned-inside-the-file"); }
             r = k == "new_fp" ? LA(c07_new_from_fp(i, t.data(), (long)t.size(), kind, reinit, config().scratch_dir.c_str()))
                               : LA(c07_new_from_fd(i, t.data(), (long)t.size(), kind, reinit, config().scratch_dir.c_str()));
             VT_CHECK(ctx, r >= 0, "harness", "could not create descriptor");
@@ -129,6 +132,10 @@ struct Interp {
                 mo.b.clear();
                 mo.exists = true;
                 return;
+            }
+            if (off > 0) {
+                if (r == 0) { ctx.label("stream-positioned:refused"); if (reinit) LA(c07_init_plain(i)); else LA(c07_new(i)); mo.b.clear(); mo.exists = true; return; }
+                t = t.substr((size_t)off);
             }
             mo.b = t;
         } else ctx.fail("harness", "unknown constructor " + k);
@@ -441,6 +448,7 @@ rc::Gen<Op> gen_stream_ctor(const std::string &prefix) {
         static const long L[] = {0, 1, 100, 4095, 4096, 4097, 8191, 8192, 8193, 12293, 70000};
         if (k < 3) { unit = *gen_unit(); rep = *range(0, 6); } else rep = *rc::gen::elementOf(std::vector<long>(L, L + 11));
         o.ints = {rep, *range(0, 1), *range(0, 2) == 0 ? *range(1, 4) : 0, *range(0, 3) == 0 ? *range(1, 2) : 0};
+        if (fp && *range(0, 5) == 0) { o.ints[1] = 3; o.ints[2] = *range(0, 5000); }   // regular file (bit 0) handed over positioned inside (bits 1-2 == 2... i.e. value 3)
         o.strs = {unit, *range(0, 2) == 0 ? *gen_unit() : std::string()};
         return o;
     });
